@@ -4,7 +4,7 @@ claim("C20",
       "who-may-call rule for write(2) + abstract path evaluation of the retry loop over the clang CFG",
       "Decides, for every path of the function that holds the library's only write(2) call site: the call "
       "uses the current cursor/remaining pair; n>0 advances both by n; EINTR retries unchanged; any other "
-      "n<=0 reaches a NORETURN block; normal return only with remaining==0; plus pointer/length pairing at "
+      "n<=0 reaches a NORETURN block; normal return only with remaining==0; whatever the loop returns contains no write(2) result; plus pointer/length pairing at "
       "every caller. These are necessary and, together with C09's emit sequences, structurally sufficient "
       "conditions for fragmentation independence; byte identity itself is an argument, not a checked fact.",
       "Trusts clang's CFG/NORETURN knowledge (assert is live, rule G1 in C12), the kernel's write(2) contract, "
@@ -37,7 +37,7 @@ claim("C05",
       "abstract path evaluation of merger_iter_seek (accept sets of the two comparison sites vs. the full re-seek / per-head forward actions) + constructor argument-identity rules",
       "Decides: the forward-seek shortcut is reachable only with sign(target,last returned key)=GT (so seek(K) after next()->K re-seeks every "
       "source), a head is re-sought iff the target is beyond it, seek clears finished/pending first and returns success on every path, and "
-      "each merger lookup is built from the matching per-source lookup over all sources with its own key parameters, registering and "
+      "a forward seek that repositions or drops a head records the target as the new reference key; each merger lookup is built from the matching per-source lookup over all sources with its own key parameters, registering and "
       "offering every non-NULL per-source iterator exactly once and freeing on an empty result. Equivalence with a single merged table over "
       "all histories is not decided.",
       "Trusts the T-cmp rows 13/14 (invariant read off merger_iter_next: after next returns K all heads are beyond K), loop bound 1 for the "
@@ -46,7 +46,7 @@ claim("C05",
 claim("C04",
       "typestate over abstract paths of merger_iter_next (Fresh/Consumed/Refilled per head entry), sentinel rule on key length, decision tables of the comparator and heap sites",
       "Decides per path: a failed merge returns failure before any further consumption; every head entry is consumed exactly once before "
-      "its refill, a successful refill is re-sifted, success is returned only after consuming an entry; heads are folded iff keys are equal; "
+      "its refill, a successful refill is re-sifted, success is returned only after consuming an entry; heads are folded iff keys are equal; the result pointer handed to the merge function is NULL at every call; "
       "no branch depends on the length of the pending key (the empty key is legal); the comparator orders exhausted entries last, returns the "
       "key comparison unchanged and consults dupsort only for equal keys with (a.val,b.val); the three heap comparison sites keep a min-heap; "
       "the two writer-feeding loops add every yielded entry once and stop at the first refused add. Heap algorithm correctness and fold "
@@ -66,7 +66,7 @@ claim("C03",
 claim("C02",
       "abstract path evaluation (decision tables) of reader_iter_next's per-kind predicate and of bytes_compare, constructor argument-identity table, accept sets of in-block search sites, type rule on char comparisons with a kept positive example",
       "Decides: GET returns iff sign(key,bound)=EQ, RANGE iff sign in {LT,EQ}, PREFIX iff len(bound)<=len(key) and the first len(bound) bytes are equal, "
-      "ITER never ends early, the switch covers every kind; each lookup constructor positions with and bounds by the right parameters; bytes_compare's "
+      "ITER never ends early, the switch covers every kind; each lookup constructor positions with and bounds by the right parameters and starts its iterator with first=true, valid=true; bytes_compare's "
       "nine-case table (memcmp sign, else length relation; min length; operand order); no relational operator on plain/signed char bytes anywhere in the "
       "library; bisection/linear-scan accept sets; separator computed iff a block is cut, right before the flush. That index search plus block search "
       "land on the right entry for every table/query, and the separator arithmetic, are not decided.",
@@ -78,7 +78,7 @@ claim("C15",
       "Decides: every dispatcher has a case per constant routed to the T-comp pair with data arguments forwarded and the level forwarded where one exists; "
       "each compressor's capacity and allocation derive from the library's own bound function of the input size; every library result is tested with that "
       "library's predicate before success is reported (zero content size legal, both zstd sentinels excluded); lz4 prefix framing agrees across the three "
-      "siblings; levels reaching zlib/lz4hc/zstd are clamped into the legal interval on every path; failure exits free the output. The libraries' own "
+      "siblings; levels reaching zlib/lz4hc/zstd are clamped into the legal interval on every path; failure exits free the output; when the inflate buffer grows zlib is told exactly the room that was added at the old end. The libraries' own "
       "round-trip behaviour on every buffer is not decided.",
       "Trusts T-comp/T-liberr (library contracts transcribed from their headers), that library calls write only through the pointers they are handed, "
       "and clang's constant evaluation of the zlib/zstd macros.")
@@ -87,7 +87,7 @@ claim("C19",
       "taint + dominating-guard rule over abstract paths of mtbl_reader_init_fd (sources: values decoded from mapped bytes; sinks: T-extent readers), loop-bound derivation for the varint decoder, decision tables of block_init/block_iter_init",
       "Decides: on every path of the open function each read of the mapping whose offset or length contains a file-derived quantity (trailer fields, "
       "fixed/varint decodes) is preceded by a comparison of an expression containing that quantity with a file-size-derived expression, continuing on "
-      "the in-bounds side; the trailer read is preceded by size >= 512; the varint decoder touches at most 10/5 bytes (derived from its loop); "
+      "the in-bounds side (a 64-bit file-derived value compared only inside a sum needs an accompanying wrap check); the trailer read is preceded by size >= 512; the varint decoder touches at most 10/5 bytes (derived from its loop); "
       "block_init marks every inconsistent restart layout empty and block_iter_init stops on blocks shorter than 8 bytes. Presence and dominance of the "
       "guards are decided, not the algebra of each inequality (overflow corner cases of the arithmetic are not decided).",
       "Trusts T-extent (which callee reads how many bytes), mmap/fstat contracts, and data-block lengths at get_block being outside this property's statement.")
@@ -127,7 +127,7 @@ claim("C07",
       "Decides: the setfile is reloaded only with n_iters==0 established on the path and only from the two reload functions; n_iters is incremented once per iterator in "
       "the only wrapper all four source functions return through and decremented once by the registered free function, which then retries the reload; every source operation "
       "reloads before using the merger; the reload decision equals T-cmp 24 (pending or strictly more than the interval, never under open iterators, NEVER honoured only when "
-      "nothing is pending) and the pending flag is cleared only after a reload; a handle stores its generation only when its merger was rebuilt or shown equal to the shared "
+      "nothing is pending) and the pending flag is cleared only after a reload; every return of mtbl_fileset_reload leaves the handle rebuilt or shown equal to the shared generation; a handle stores its generation only when its merger was rebuilt or shown equal to the shared "
       "generation with nothing loaded/unloaded since; a reader is added to the view iff non-NULL and accepted by every configured filter. Setfile parsing, keep/unload "
       "bookkeeping over all histories, the clock, and snapshot contents are not decided.",
       "Trusts that equal timestamps mean the same generation (as the code does), T-cmp rows 24/25, loop bound 1 for the file loop.")
@@ -147,7 +147,7 @@ claim("C09",
       "shared is the common prefix with the previous key; the restart array is u32le (u64le iff the entries region exceeds UINT32_MAX) followed by the u32le count, and the size estimate "
       "agrees with it; a framed block is varint64 length, 4-byte little-endian CRC32C, stored bytes, and the returned size is their sum; the checksum is taken over (data,len_data) of the "
       "same block after their last definition and nothing between compression and the file changes them; restart cadence and reset table; a block is cut iff estimate+15+len_key+len_val "
-      ">= block_size; the index entry carries the offset the block started at and pending_offset starts at the descriptor's offset and grows by the bytes written; trailer layout as in C10. "
+      ">= block_size; the index entry carries the offset the block started at and pending_offset starts at the descriptor's offset and grows by the bytes written; trailer layout as in C10; every increment applied to separator bytes is guarded against wrap-around (the index key cannot drop below the block's last key that way). "
       "The bytes of real files (which need an independent decoder run on outputs) and the separator arithmetic are not decided.",
       "Trusts T-format (written from the LevelDB block format and mtbl's documentation), the varint/fixed codecs (C16 is not claimed), loop bound 1.")
 
@@ -156,13 +156,13 @@ claim("C11",
       "Decides: in mtbl_reader_init_fd, get_block and mtbl_verify's block loop, for V1 and V2 alike, the length is read at +0, the stored CRC at +length-of-length and the payload at "
       "+length-of-length+4 with the decoded length; each magic maps to its version and others are refused; the reader interprets restart offsets as 64-bit under the writer's threshold with "
       "matching element widths and reads the count from the last four bytes; the single-byte fast path requires all three values < 128; an entry is rebuilt as clip(previous key, shared) ++ "
-      "non_shared bytes with the value after it, and nothing in the reader reads the writer's restart interval. Behaviour on legal encodings today's writer never produces is exactly what "
+      "non_shared bytes with the value after it, nothing in the reader reads the writer's restart interval, and outside metadata.c and the writer nothing reads the trailer's statistics fields. Behaviour on legal encodings today's writer never produces is exactly what "
       "only an independent encoder can exercise; it is not decided.",
       "Trusts T-format, additive parsing of pointer expressions (no subtraction), loop bound 1.")
 
 claim("C01",
       "writer/reader entry codec agreement against the format table, exactly-once pass-through and life-cycle rules over abstract paths, decision table of mtbl_dump's filter",
-      "Decides: block_builder_add's emit sequence and decode_entry/parse_next_key's parse sequence both equal the entry row of T-format (hence each other); every accepted add reaches the data "
+      "Decides: block_builder_add's emit sequence and decode_entry/parse_next_key's parse sequence both equal the entry row of T-format (hence each other), a header value written as one raw byte being accepted only with a `< 128` proof on the path; every accepted add reaches the data "
       "block builder exactly once with the caller's key/value after any block cut and a refused add never does; a finished builder is reset before reuse, a cut block goes either to the pool "
       "once or is compressed then written once, finish runs flush < join < index block < one 512-byte trailer; an exhausted block makes next advance the index once, load the block it names "
       "and position at its first entry, failing only at the end of the index; mtbl_dump prints an entry iff not silent and both prefix tests (length and bytes) and both minimum lengths hold. "
